@@ -95,7 +95,28 @@ def option_unexported_field(rw):
     rw.sub("xml/xml.go", "type Minifier struct {\n\tKeepWhitespace bool\n", "type Minifier struct {\n\tKeepWhitespace bool\n\tdepth          int // unrelated unexported bookkeeping field\n")
 
 
+def optsite_receiver_renamed(rw):
+    rw.rename_in_func("xml/xml.go", r"\(o \*Minifier\) Minify", "o", "opts")
+
+
+def optsite_cond_respelled(rw):
+    rw.sub("svg/svg.go", "\t\t\tif o.KeepComments {\n", "\t\t\tif o.KeepComments == true {\n")
+    rw.sub("xml/xml.go", "next.TokenType == xml.TextToken && !o.KeepWhitespace && parse.IsAllWhitespace(next.Data)", "!o.KeepWhitespace && next.TokenType == xml.TextToken && parse.IsAllWhitespace(next.Data)")
+
+
+def optsite_local_renamed(rw):
+    rw.rename_in_func("html/html.go", r"\(o \*Minifier\) Minify", "isDocTag", "documentTag")
+
+
 # ---- controls ----
+
+def ctl_optsite_new_consumer(rw):
+    rw.sub("json/json.go", "\t\tskipComma = gt == json.StartObjectGrammar || gt == json.StartArrayGrammar\n", "\t\tskipComma = gt == json.StartObjectGrammar || gt == json.StartArrayGrammar\n\t\tif o.KeepNumbers && gt == json.EndArrayGrammar {\n\t\t\tskipComma = false\n\t\t}\n")
+
+
+def ctl_optsite_check_dropped(rw):
+    rw.sub("xml/xml.go", "next.TokenType == xml.TextToken && !o.KeepWhitespace && parse.IsAllWhitespace(next.Data)", "next.TokenType == xml.TextToken && parse.IsAllWhitespace(next.Data)")
+
 
 def ctl_gate_dropped(rw):
     rw.sub("js/js.go", "if len(expr.Args.List) == 2 && m.o.minVersion(2016) {", "if len(expr.Args.List) == 2 {")
@@ -164,6 +185,11 @@ REWRITES = [
     R("c16-cli-reordered", T, "invariant", "reorder", "cmd/minify: AddOpt calls of the minifier options in reverse order", cli_reordered),
     R("c16-option-struct-moved", T, "invariant", "move-decl", "xml: type Minifier moves to another file", option_struct_moved),
     R("c16-option-unexported-field", T, "invariant", "add-unrelated-var", "xml.Minifier gets an unexported field", option_unexported_field),
+    R("c16-optsite-receiver-renamed", T + ["c14_exits", "c12_skel"], "invariant", "rename-receiver", "xml Minify: receiver o -> opts", optsite_receiver_renamed),
+    R("c16-optsite-cond-respelled", T, "invariant", "equivalent-form", "option conditions respelled (conjuncts reordered, `== true`)", optsite_cond_respelled, tests=["./svg/...", "./xml/..."]),
+    R("c16-optsite-local-renamed", T, "invariant", "rename-local", "html Minify: the local an option is assigned to is renamed", optsite_local_renamed),
+    R("c16-ctl-optsite-new-consumer", T, "changes", "control", "json: KeepNumbers consulted at a new place", ctl_optsite_new_consumer),
+    R("c16-ctl-optsite-check-dropped", T, "changes", "control", "xml: a KeepWhitespace check disappears", ctl_optsite_check_dropped),
     R("c16-ctl-gate-dropped", T, "changes", "control", "Math.pow -> ** no longer gated on 2016", ctl_gate_dropped),
     R("c16-ctl-gate-version-lowered", T, "changes", "control", "nullish rewrite gated on 2019 instead of 2020", ctl_gate_version_lowered),
     R("c16-ctl-gate-collapsed", T, "changes", "control", "toNullishExpr evaluated before its gate in the same condition", ctl_gate_collapsed),
